@@ -109,9 +109,9 @@ Definition stl_step (cfg : Defects) (w : world) (fin : txm) (h : N) (acc : stl) 
   match acc, o with
   | StlAbort, _ => StlAbort
   | StlMaps adds rems, OIbtp b _ =>
-      match b_grp b with
-      | Some _ => acc
-      | None =>
+      if (match b_grp b with Some _ => true | None => false end)
+         && (is_request b || d_receipt_group_skip cfg) then acc
+      else
           if tx_skipped r then acc
           else if is_request b then
             if (b_T b <=? 0)%Z || (MAXU64 - h <=? u64_of_Z (b_T b)) then acc
@@ -125,7 +125,6 @@ Definition stl_step (cfg : Defects) (w : world) (fin : txm) (h : N) (acc : stl) 
                 else StlMaps adds (hmap_add hh (TTx (b_id b)) rems)
             end
           else acc
-      end
   | _, _ => acc
   end.
 
